@@ -19,6 +19,13 @@
 //!      connector's own message type -> real `Transformer::transform`
 //!   -> projection of the resulting `MarketEvent`s / errors = `out` of the trace line.
 //!
+//! CASE-TWIN flavours (`named_ct`, `generated_ct`): the same two `name_exchange` flavours, subscribed
+//! with symbols the venue lists in MIXED case, two pairs of which differ only by letter case (see
+//! `twin_names`).  The venue streams and echoes such a symbol exactly as listed and refuses a request
+//! that does not name a listed symbol exactly.  Routes whose connector normalises the case of
+//! `name_exchange` on the way to the wire (Binance: `Connector::requests` lower-cases the stream name)
+//! cannot carry case-twins and are skipped (reported as `twins_skipped`).
+//!
 //! The simulated venue knows nothing about the connector's internal subscription ids: it derives
 //! the market name it echoes from the subscription request the connector itself produced
 //! (`Connector::requests`), rendered the way the venue renders it (upper-case symbol; Bitfinex: the
@@ -297,6 +304,34 @@ fn universe(ikind: &str) -> Vec<MarketDataInstrument> {
         ],
         other => usage(&format!("unknown instrument kind {other}")),
     }
+}
+
+/// CASE-TWIN listing of a route: five markets the venue lists under MIXED-CASE symbols, in the venue's
+/// own symbol format of the route (derived from the canonical symbols the venue echoes for the keyed
+/// flavour by renaming the base asset `BTC`):
+///   market 1  kPEPE..   market 2  KPEPE..   (differ only by case; the all-upper-case one comes later)
+///   market 3  KSHIB..   market 4  kSHIB..   (differ only by case; the all-upper-case one comes first)
+///   market 5  the canonical symbol of market 5 (an ordinary market next to them)
+/// e.g. Bybit kPEPEUSDT / KPEPEUSDT, OKX kPEPE-USDT-SWAP / KPEPE-USDT-SWAP, Bitfinex tkPEPEUSDT / tKPEPEUSDT.
+/// Distinct names are simply distinct markets of the spec.
+fn twin_names(canon: &[String]) -> Vec<String> {
+    let re = |name: &String, base: &str| {
+        if !name.contains("BTC") {
+            usage(&format!("case-twin listing: the canonical symbol {name} does not contain the base asset BTC"));
+        }
+        name.replacen("BTC", base, 1)
+    };
+    vec![re(&canon[0], "kPEPE"), re(&canon[0], "KPEPE"), re(&canon[1], "KSHIB"), re(&canon[1], "kSHIB"), canon[4].clone()]
+}
+/// the contracts behind the case-twin listing (twins are the same kind of contract)
+fn twin_universe(uni: &[MarketDataInstrument]) -> Vec<MarketDataInstrument> {
+    vec![uni[0].clone(), uni[0].clone(), uni[1].clone(), uni[1].clone(), uni[4].clone()]
+}
+/// Connectors that normalise the case of `name_exchange` on the way to the wire cannot carry
+/// case-twins: Binance `Connector::requests` lower-cases the market of every stream name
+/// (exchange/binance/mod.rs), so two symbols that differ only by case are one stream there.
+fn normalises_case(fam: Fam) -> bool {
+    matches!(fam, Fam::Binance { .. })
 }
 
 // ------------------------------------------------------------------------------------------------
@@ -935,6 +970,8 @@ fn payload(route: &Route, mk: &Listed, items: &[Item], seq: u64, chan: u32, n: u
 struct Bfx {
     addr: SocketAddr,
     assigned: Arc<Mutex<HashMap<String, u32>>>,
+    /// case-twin flavours: the venue lists mixed-case symbols and echoes a symbol exactly as listed
+    exact: Arc<std::sync::atomic::AtomicBool>,
 }
 
 async fn bfx_server() -> Bfx {
@@ -943,12 +980,15 @@ async fn bfx_server() -> Bfx {
     let assigned: Arc<Mutex<HashMap<String, u32>>> = Arc::default();
     let next = Arc::new(AtomicU32::new(420_000));
     let shared = assigned.clone();
+    let exact: Arc<std::sync::atomic::AtomicBool> = Arc::default();
+    let exact_shared = exact.clone();
     tokio::spawn(async move {
         loop {
             let Ok((stream, _)) = listener.accept().await else { continue };
             let _ = stream.set_nodelay(true);
             let assigned = shared.clone();
             let next = next.clone();
+            let exact = exact_shared.clone();
             tokio::spawn(async move {
                 let Ok(mut ws) = tokio_tungstenite::accept_async(stream).await else { return };
                 let info = json!({"event": "info", "version": 2, "serverId": "sim-0001", "platform": {"status": 1}});
@@ -962,7 +1002,7 @@ async fn bfx_server() -> Bfx {
                     if v["event"] != "subscribe" {
                         continue;
                     }
-                    let symbol = echo_of(Fam::Bitfinex, v["symbol"].as_str().unwrap_or(""));
+                    let symbol = if exact.load(Ordering::SeqCst) { v["symbol"].as_str().unwrap_or("").to_string() } else { echo_of(Fam::Bitfinex, v["symbol"].as_str().unwrap_or("")) };
                     // a second subscribe for a symbol already subscribed on this connection changes
                     // nothing (the venue keeps the one channel)
                     if !seen.insert(symbol.clone()) {
@@ -983,7 +1023,7 @@ async fn bfx_server() -> Bfx {
             });
         }
     });
-    Bfx { addr, assigned }
+    Bfx { addr, assigned, exact }
 }
 
 // ------------------------------------------------------------------------------------------------
@@ -1035,7 +1075,7 @@ where
 
 /// The venue's listing: for every market of the universe the (channel, symbol) the venue would use,
 /// derived from the subscription request the connector produces for that instrument alone.
-fn listing<E, I, K>(route: &Route, kind: &K, uni: &[MarketDataInstrument], names: &[String]) -> Result<Vec<Listed>, String>
+fn listing<E, I, K>(route: &Route, kind: &K, uni: &[MarketDataInstrument], names: &[String], exact: bool) -> Result<Vec<Listed>, String>
 where
     E: Connector,
     I: Flavour,
@@ -1050,6 +1090,9 @@ where
             let meta = WebSocketSubMapper::map::<E, I, K>(&subs);
             let toks = parse_requests(route.fam, &meta.ws_subscriptions)?;
             match toks.as_slice() {
+                // case-twin flavours: the listing is given - the venue lists (and echoes) exactly the symbol
+                // the instrument is named by; only the channel is read from the connector's request
+                [(ch, _)] if exact => Ok(Listed { channel: ch.clone(), echo: names[m - 1].clone() }),
                 [(ch, mk)] => Ok(Listed { channel: ch.clone(), echo: venue_symbol(route, &uni[m - 1], echo_of(route.fam, mk))? }),
                 other => Err(format!("request for one instrument names {} markets: {other:?}", other.len())),
             }
@@ -1067,6 +1110,7 @@ async fn subscribe<E, I, K>(
     off: i64,
     dup: (usize, i64),
     bfx: &Bfx,
+    exact: bool,
 ) -> Result<Session<Tr<E, I, K>>, String>
 where
     E: Connector + StreamSelector<I, K> + Send + Sync,
@@ -1084,7 +1128,7 @@ where
 
     // the venue reads the requests: they must name exactly the subscribed markets of its listing
     let mut asked: Vec<(String, String)> =
-        parse_requests(route.fam, &meta.ws_subscriptions)?.into_iter().map(|(ch, mk)| (ch, echo_of(route.fam, &mk))).collect();
+        parse_requests(route.fam, &meta.ws_subscriptions)?.into_iter().map(|(ch, mk)| if exact { (ch, mk) } else { (ch, echo_of(route.fam, &mk)) }).collect();
     let mut want: Vec<(String, String)> = markets.iter().map(|m| (list[*m - 1].channel.clone(), list[*m - 1].echo.clone())).collect();
     // (a market subscribed twice may be requested once or twice)
     asked.sort();
@@ -1099,6 +1143,7 @@ where
     let mut chan = HashMap::new();
     let map = if route.fam == Fam::Bitfinex {
         bfx.assigned.lock().unwrap().clear();
+        bfx.exact.store(exact, Ordering::SeqCst);
         let mut ws = connect(format!("ws://{}", bfx.addr)).await.map_err(|e| format!("loopback connect: {e}"))?;
         for m in meta.ws_subscriptions.iter().cloned() {
             ws.send(m).await.map_err(|e| format!("loopback send: {e}"))?;
@@ -1230,6 +1275,8 @@ struct Ctx {
     flavours: Vec<String>,
     onesided: String,
     stats: serde_json::Map<String, Value>,
+    /// route/flavour pairs of the case-twin flavours skipped because the connector normalises the case
+    twins_skipped: Vec<String>,
 }
 
 impl Ctx {
@@ -1254,7 +1301,7 @@ struct Live<T> {
     markets: Vec<usize>,
 }
 
-async fn run_flavour<E, I, K>(kind: K, route: &Route, names: &[String], ctx: &mut Ctx, bfx: &Bfx) -> Vec<String>
+async fn run_flavour<E, I, K>(kind: K, route: &Route, names: &[String], ctx: &mut Ctx, bfx: &Bfx, twins: bool) -> Vec<String>
 where
     E: Connector + StreamSelector<I, K> + Send + Sync,
     I: Flavour,
@@ -1264,16 +1311,26 @@ where
     Tr<E, I, K>: ExchangeTransformer<E, I::Key, K>,
     Subscription<E, I, K>: Identifier<E::Channel> + Identifier<E::Market>,
 {
-    let uni = universe(route.ikind);
-    let list = match listing::<E, I, K>(route, &kind, &uni, names) {
+    let fl_name = if twins { format!("{}_ct", I::NAME) } else { I::NAME.to_string() };
+    let fl = fl_name.as_str();
+    let uni = if twins { twin_universe(&universe(route.ikind)) } else { universe(route.ikind) };
+    let twin = if twins { twin_names(names) } else { vec![] };
+    let names: &[String] = if twins { &twin } else { names };
+    if twins && !ctx.flavours.iter().any(|f| f == fl) {
+        return names.to_vec();
+    }
+    if twins && normalises_case(route.fam) {
+        ctx.twins_skipped.push(format!("{}/{}", route.name(), fl));
+        return names.to_vec();
+    }
+    let list = match listing::<E, I, K>(route, &kind, &uni, names, twins) {
         Ok(l) => l,
         Err(e) => usage(&format!("{}: the simulated venue cannot read the connector's subscription request: {e}", route.name())),
     };
     let echoes: Vec<String> = list.iter().map(|l| l.echo.clone()).collect();
-    if !ctx.flavours.iter().any(|f| f == I::NAME) {
+    if !ctx.flavours.iter().any(|f| f == fl) {
         return echoes;
     }
-    let fl = I::NAME;
     let key = format!("{}/{}", route.name(), fl);
     let mut n_msg: u64 = 1000;
     let mut live: Option<Live<Tr<E, I, K>>> = None;
@@ -1292,7 +1349,7 @@ where
                     let attempt = if sub_failures.len() >= 3 {
                         Err(format!("{} (not retried)", sub_failures[0]))
                     } else {
-                        subscribe::<E, I, K>(route, &kind, &uni, names, &list, &markets, off, (x.0, x.1), bfx).await
+                        subscribe::<E, I, K>(route, &kind, &uni, names, &list, &markets, off, (x.0, x.1), bfx, twins).await
                     };
                     match attempt {
                         Ok(sess) => {
@@ -1437,10 +1494,13 @@ where
 macro_rules! route {
     ($E:ty, $K:expr, $r:expr, $ctx:expr, $bfx:expr) => {{
         let none: Vec<String> = vec![String::new(); NMARKETS];
-        let names = run_flavour::<$E, Keyed<u32, MarketDataInstrument>, _>($K, $r, &none, $ctx, $bfx).await;
-        run_flavour::<$E, MarketInstrumentData<u32>, _>($K, $r, &names, $ctx, $bfx).await;
-        run_flavour::<$E, Keyed<InstrumentIndex, MarketDataInstrument>, _>($K, $r, &names, $ctx, $bfx).await;
-        run_flavour::<$E, MarketInstrumentData<InstrumentIndex>, _>($K, $r, &names, $ctx, $bfx).await;
+        let names = run_flavour::<$E, Keyed<u32, MarketDataInstrument>, _>($K, $r, &none, $ctx, $bfx, false).await;
+        run_flavour::<$E, MarketInstrumentData<u32>, _>($K, $r, &names, $ctx, $bfx, false).await;
+        run_flavour::<$E, Keyed<InstrumentIndex, MarketDataInstrument>, _>($K, $r, &names, $ctx, $bfx, false).await;
+        run_flavour::<$E, MarketInstrumentData<InstrumentIndex>, _>($K, $r, &names, $ctx, $bfx, false).await;
+        // the case-twin flavours: the two `name_exchange` flavours again, with mixed-case venue symbols
+        run_flavour::<$E, MarketInstrumentData<u32>, _>($K, $r, &names, $ctx, $bfx, true).await;
+        run_flavour::<$E, MarketInstrumentData<InstrumentIndex>, _>($K, $r, &names, $ctx, $bfx, true).await;
     }};
 }
 
@@ -1511,18 +1571,19 @@ async fn main() {
         out: Out::create(args.req("out")),
         details: args.get("details").map(Out::create),
         work,
-        flavours: args.str("flavours", "keyed,named,indexed,generated").split(',').map(|x| x.to_string()).collect(),
+        flavours: args.str("flavours", "keyed,named,indexed,generated,named_ct,generated_ct").split(',').map(|x| x.to_string()).collect(),
         onesided: args.str("onesided", "map"),
         stats: serde_json::Map::new(),
+        twins_skipped: vec![],
     };
     let bfx = bfx_server().await;
     for r in &selected {
         run_route(r, &mut ctx, &bfx).await;
     }
-    let Ctx { out, details, stats, .. } = ctx;
+    let Ctx { out, details, stats, twins_skipped, .. } = ctx;
     let lines = out.finish();
     if let Some(d) = details {
         d.finish();
     }
-    println!("{}", json!({"lines": lines, "routes": selected.len(), "per_route": stats}));
+    println!("{}", json!({"lines": lines, "routes": selected.len(), "per_route": stats, "twins_skipped": twins_skipped}));
 }
